@@ -85,7 +85,7 @@ fn lookup(id: &str) -> Option<(&'static str, Gen, Exec)> {
         "C06" => Some(("C06", c06::generate, c06::exec)),
         "C03" => Some(("C03", c03::generate, c03::exec)),
         "C14" => Some(("C14", c14::generate, c14::exec)),
-        "C01" => Some(("C01", c01::generate, c01::exec)),
+        "C01" => Some(("C01", c01_generate, c01_exec)),
         "C02" => Some(("C02", c02::generate, c02::exec)),
         "C10" => Some(("C10", c10::generate, c10::exec)),
         "C09" => Some(("C09", c09::generate, c09::exec)),
@@ -94,6 +94,16 @@ fn lookup(id: &str) -> Option<(&'static str, Gen, Exec)> {
         "C05" => Some(("C05", c05_generate, c05_exec)),
         _ => None,
     }
+}
+
+fn c01_generate(ctx: &mut Ctx) {
+    c01::generate(ctx);
+    // the decoder the validation rests on: every hand-made variation of every field and extension
+    certd::generate_into(ctx, &c04::mutate_any, &|_| Vec::new());
+}
+
+fn c01_exec(toks: &[&str]) -> String {
+    if toks.first() == Some(&"certd") { certd::exec(toks) } else { c01::exec(toks) }
 }
 
 fn c04_generate(ctx: &mut Ctx) {
